@@ -56,7 +56,7 @@ func Verif_C17_U2_ExistenceCache() {
 	nOps := 3
 	if vnd.Thorough() {
 		queries = [][]int{{0}, {1}, {0, 1}, {2, 1}, {0, 1, 2}}
-		nOps = 4
+		nOps = 3 // four operations with symbolic clock advances did not finish within an hour
 	} else {
 		// quick: only object 1 may be absent from the backend
 		backend.Present[0], backend.Present[2] = true, true
